@@ -38,7 +38,8 @@ def runs(draw, tier):
                                                                   "metadata": st.sampled_from(["none", "dict", "dict", "callable"]), "only": st.sampled_from([False, False, True])}))),
          "logger": draw(st.one_of(st.none(), st.fixed_dictionaries({"period": st.integers(1, 4), "custom": st.booleans()}))),
          "second_run": draw(st.booleans()), "log": draw(st.booleans()), "stop_in_batch": draw(st.booleans()), "verbose": draw(st.booleans()),
-         "inspect_after_clear": draw(st.booleans()), "third_run_no_clear": draw(st.booleans()), "second_len": draw(st.sampled_from(["same", "fixed3", "same_range", "same_range"]))}
+         "inspect_after_clear": draw(st.booleans()), "third_run_no_clear": draw(st.booleans()), "decoy_shared_metrics": draw(st.booleans()),
+         "third_from_last": draw(st.booleans()), "second_len": draw(st.sampled_from(["same", "fixed3", "same_range", "same_range"]))}
     return c
 
 
@@ -123,6 +124,13 @@ def check(c):
             metrics = {"sum": plain_sum, "norm": pnorm, "scaled": scaled} if i == 0 else {"norm": pnorm, "sum": plain_sum}
             log = os.path.join(tmp, f"metrics{i}.csv") if c["log"] else None
             mes.append((p, metrics, log, MetricEvaluator(p, metrics, verbose=bool(c.get("verbose")), log=log, scale=2.5)))
+        if mes and c.get("decoy_shared_metrics"):
+            # shared object: ANOTHER evaluator is built from the same metrics dict with other keyword arguments (it is never used); the dict
+            # still holds the caller's functions and the first evaluator keeps calling them with ITS keyword arguments
+            fns_before = dict(mes[0][1])
+            MetricEvaluator(3, mes[0][1], scale=9.0)
+            require(list(mes[0][1].items()) == list(fns_before.items()), "metrics-dict-altered", "constructing a MetricEvaluator changed the caller's metrics dict")
+            labels.append("decoy_evaluator_on_shared_metrics_dict")
         oe = None
         if c["obs_period"] is not None:
             olog = os.path.join(tmp, "obs.csv") if c["log"] else None
@@ -278,7 +286,7 @@ def check(c):
                 for p_, metrics, log, me in mes:
                     prev[id(me)] = (list(me.epochs), {nm: list(me[nm]) for nm in metrics})
                 prev_oe = (list(oe.epochs), {o.name: list(oe[o.name].mean) for o in obs}) if oe is not None else None
-                ran3 = one_run(ran2[0], ran2[-1])
+                ran3 = one_run(ran2[-1] if c.get("third_from_last") else ran2[0], ran2[-1] + (2 if c.get("third_from_last") else 0))     # the new run may start at the epoch number the last run ended with
                 for p_, metrics, log, me in mes:
                     S3 = [e for e in ran3 if e % p_ == 0]
                     pe_, pv_ = prev[id(me)]
